@@ -87,7 +87,9 @@ func Load(o LoadOpts) (*Program, error) {
 	if o.Tags != "" {
 		cfg.BuildFlags = []string{"-tags=" + o.Tags}
 	}
-	pkgs, err := packages.Load(cfg, "./...")
+	// slices and maps are loaded from source as well: their generic functions are interpreted like repository code
+	// (a helper rewritten around slices.IndexFunc keeps its meaning for the interpreter)
+	pkgs, err := packages.Load(cfg, "./...", "slices", "maps")
 	if err != nil {
 		return nil, fmt.Errorf("packages.Load: %w", err)
 	}
